@@ -172,6 +172,15 @@ class Module:
                 for t in st.targets:
                     if isinstance(t, ast.Name):
                         self.assigns[t.id] = st.value
+                    elif isinstance(t, (ast.Tuple, ast.List)) and all(isinstance(e, ast.Name) for e in t.elts):
+                        # a, b = x, y   /   a, b = expr  (the i-th component of the value)
+                        if isinstance(st.value, (ast.Tuple, ast.List)) and len(st.value.elts) == len(t.elts):
+                            for e, v in zip(t.elts, st.value.elts):
+                                self.assigns[e.id] = v
+                        else:
+                            for i, e in enumerate(t.elts):
+                                sub = ast.Subscript(value=st.value, slice=ast.Constant(i), ctx=ast.Load())
+                                self.assigns[e.id] = ast.copy_location(ast.fix_missing_locations(sub), st.value)
             elif isinstance(st, ast.AnnAssign) and isinstance(st.target, ast.Name) and st.value is not None:
                 self.assigns[st.target.id] = st.value
             elif isinstance(st, ast.ImportFrom):
